@@ -247,6 +247,33 @@ def run(ctx):
     impl = ctx.harness_sharded(xlines)
     model = ctx.driver_sharded(xlines, "model")
     ctx.compare("tx-argument", xlines, impl, model, None, nontrivial=lambda c, i: i.startswith("OK"))
+    # every place the tools display a txid shows the identifier of the transaction they name: the -v lines and the diagnostic for a --txin that
+    # the --tx does not spend (the two transactions named there are an input transaction and a provided transaction)
+    import hashlib
+    sys_path_h = os.path.join(os.path.dirname(os.path.dirname(os.path.abspath(__file__))), "harness")
+    import sys as _sys
+    if sys_path_h not in _sys.path: _sys.path.insert(0, sys_path_h)
+    import ptyrun
+    def txid_of(t): return hashlib.sha256(hashlib.sha256(ser_tx(t, witness=False)).digest()).digest()[::-1].hex()
+    shown = [t for t in gen[:12] if len(t[1]) >= 1]
+    for k in range(0, len(shown) - 1, 2):
+        ta, tb = shown[k], shown[k + 1]
+        if any(i[0] == bytes.fromhex(txid_of(tb))[::-1] for i in ta[1]): continue
+        rc, out, err = ptyrun.run([os.path.join(ctx.bin, "btcdeb"), "--tx=" + ser_tx(ta).hex(), "--txin=" + ser_tx(tb).hex()], "pipe", "pipe", "")
+        ma = re.search(r"provided transaction ([0-9a-f]{64})", err); mb = re.search(r"input transaction ([0-9a-f]{64})", err)
+        ctx.count("displayed-txids", 1); ctx.nontrivial.add("dtx:%d" % k)
+        if not (ma or mb):
+            continue        # refused earlier (e.g. a transaction without inputs): no txid is displayed
+        if rc == 0 or not ma or not mb or ma.group(1) != txid_of(ta) or mb.group(1) != txid_of(tb):
+            ctx.violation("btcdeb --tx=%s --txin=%s" % (ser_tx(ta).hex(), ser_tx(tb).hex()),
+                          {"stream": "displayed-txids", "rc": rc, "stderr": err[-400:], "txid_tx": txid_of(ta), "txid_txin": txid_of(tb),
+                           "why": "the diagnostic for a --txin that --tx does not spend must name each transaction by its own txid"})
+        rc, out, err = ptyrun.run([os.path.join(ctx.bin, "btcdeb"), "-v", "--tx=" + ser_tx(ta).hex(), "--txin=" + ser_tx(tb).hex()], "tty", "tty", "\x04")
+        text = out + err
+        mg = re.search(r"got (?:segwit )?transaction ([0-9a-f]{64})", text)
+        if not mg or mg.group(1) != txid_of(ta):
+            ctx.violation("btcdeb -v --tx=%s --txin=%s" % (ser_tx(ta).hex(), ser_tx(tb).hex()),
+                          {"stream": "displayed-txids", "shown": mg.group(1) if mg else None, "txid_tx": txid_of(ta), "why": "-v shows a txid that is not the transaction's"})
     # tap parses --tx, fills in a witness and serialises it again: every other field comes back as given (version, sequences, outputs, lock time)
     from . import c06
     tapbin = os.path.join(ctx.bin, "tap")
